@@ -27,6 +27,7 @@ def run(args, rep):
         progs = progs[:6484 + 4156] + progs[6484 + 4156:][:2000]
     optsets = [('TT', {'rl': True, 'rg': True}), ('TF', {'rl': True, 'rg': False}), ('FT', {'rl': False, 'rg': True}), ('FF', {'rl': False, 'rg': False})]
     skipped = _rename.observe_and_judge(rep, progs, optsets, ['c04:'], 'C04', rng, variant_share=0.0)
+    n_py2 = _rename.py2_replay(rep, args.tier, rng, ['c04:'], 'C04py2', optsets)
     # real modules
     # projected under CPython 3.11: from 3.12 on symtable merges inlined comprehension variables into the enclosing scope (PEP 709)
     files, sk = corpus.stdlib('3.11', 80 if args.tier == 'quick' else None)
@@ -56,10 +57,10 @@ def run(args, rep):
     if recs:
         rep.sample({'module': recs[0]['id'], 'module_level_names_added': recs[0]['added'], 'params': recs[0]['params_in'][:5]})
     rep.exhaustive = False
-    rep.rule = ('enumerated programs as in C03 under all four (rename_locals, rename_globals) pairs; plus pinned real modules, the repository sources and the shape '
+    rep.rule = ('enumerated programs as in C03 under all four (rename_locals, rename_globals) pairs; the programs that exist on Python 2 also minified under 2.7 (list comprehensions are not scopes there); plus pinned real modules, the repository sources and the shape '
                 'bank under renaming/hoisting with structure-changing transforms off, projected to interface categories; non-trivial = programs with a respelled '
                 'occurrence / modules whose module-level name set changed')
-    rep.extra.update({'programs_enumerated_by_tlc': total, 'programs_replayed': len(progs), 'skipped': skipped, 'modules_projected': len(recs),
+    rep.extra.update({'programs_enumerated_by_tlc': total, 'programs_replayed': len(progs), 'skipped': skipped, 'modules_projected': len(recs), 'programs_replayed_under_python_2_7': n_py2,
                       'checker_cmd': 'tlc Rename.tla; tlc Trace_Rename.tla; tlc Trace_Interface.tla'})
     rep.assumptions += ['documented freedom: the first parameter of an undecorated / classmethod method, *args/**kwargs names and positional-only parameters may be renamed',
                         'interface projection of real modules is static (ast + symtable of the interpreter)']
